@@ -302,7 +302,7 @@ class Abs:
 
     def cancel(self, token):
         if token not in self.open:
-            return "err unknownToken:" + token.encode().hex()
+            return "err unknownToken:" + hx(token.encode())
         receipt = self.open.pop(token)
         r = self.cancel_by_receipt(receipt)
         if r != "ok":
@@ -313,7 +313,7 @@ class Abs:
 
     def commit(self, token, final):
         if token not in self.open:
-            return "err unknownToken:" + token.encode().hex()
+            return "err unknownToken:" + hx(token.encode())
         receipt = self.open.pop(token)
         status = None
         for r in self.exchange("0623", self.P.commit(self.cfg, token, receipt, final)):
